@@ -1250,3 +1250,41 @@ theorem runs_at_finish {s : St} {ctx : Nat} (quiet post : List Op) (v : Nat)
   exact ⟨_, hmem, rfl⟩
 
 end Qx.C07Chain
+
+namespace Qx.C07.Neg
+
+theorem run_append (a b : List Op) : ∀ (s : St),
+    run s (a ++ b) = ((run (run s a).1 b).1, (run s a).2 ++ (run (run s a).1 b).2) := by
+  induction a with
+  | nil => intro s; simp [run]
+  | cons op rest ih => intro s; simp [run, ih, List.append_assoc]
+
+theorem step_deadEmpty (s : St) (op : Op) (h : DeadEmpty s.base) : DeadEmpty (step s op).1.base := by
+  cases op with
+  | base op => exact C07.step_deadEmpty s.base op h
+  | connect sm rn r => exact C07.run_deadEmpty _ s.base h
+  | loss => exact C07.run_deadEmpty _ s.base h
+  | disconnect => exact C07.run_deadEmpty _ s.base h
+
+theorem run_deadEmpty (ops : List Op) : ∀ (s : St), DeadEmpty s.base → DeadEmpty (run s ops).1.base := by
+  induction ops with
+  | nil => intro s h; exact h
+  | cons op rest ih => intro s h; simp only [run]; exact ih _ (step_deadEmpty s op h)
+
+/-- request-table operations inside a session do not touch the client's belief -/
+theorem run_base_canResume (mid : List C07.Op) : ∀ (s : St),
+    (run s (mid.map .base)).1.canResume = s.canResume := by
+  induction mid with
+  | nil => intro s; rfl
+  | cons op rest ih => intro s; simp only [List.map_cons, run]; rw [ih]; rfl
+
+/-- a loss the client does not believe resumable empties the table -/
+theorem loss_empties (s : St) (hde : DeadEmpty s.base) (hc : s.canResume = false) :
+    (step s .loss).1.base.tbl = [] := by
+  cases hd : s.base.dead with
+  | true =>
+    have := hde hd
+    simp [step, C07.run, C07.step, hd, this]
+  | false => simp [step, C07.run, C07.step, hd, hc, cancelAll]
+
+end Qx.C07.Neg
